@@ -43,12 +43,15 @@ SrvRun[i \in 0..Len(Ev.hs)] ==
          IN [out |-> prev.out \o r.out, tunw |-> prev.tunw \o r.tunw,
              ok |-> prev.ok /\ (h.k = "Frame" => Frame(h, "up") \in netUp)]
 
+\* (an iteration in which select() returned with data may send the keep-alive ping first)
 TCli == /\ IsEvent("Cli")
         /\ LET r == CliRun[Len(Ev.hs)] IN
            /\ r.ok
-           /\ Shown(r.out) = Strip(Ev.out)
+           /\ \E ka \in BOOLEAN :
+                 /\ ka => (Len(Ev.hs) > 0 /\ Ev.hs[1].k # "Timeout")
+                 /\ Shown(KeepAlive(ka, 0) \o r.out) = Strip(Ev.out)
+                 /\ netUp' = netUp \cup ToSet(KeepAlive(ka, 0) \o r.out)
            /\ [i \in 1..Len(r.tunw) |-> Idx(r.tunw[i])] = Ev.tunw
-           /\ netUp' = netUp \cup ToSet(r.out)
         /\ UNCHANGED <<netDn, upNext, dnNext, tunS, tunC, accS, accC, loss, dup, lastact>>
 TSrv == /\ IsEvent("Srv")
         /\ LET r == SrvRun[Len(Ev.hs)] IN
